@@ -89,6 +89,11 @@ def run_case(case, ctx):
         ra, rb = [], []
     h1 = case["hash"]
     h2 = case["hash2"] if rel == "hash" else h1
+    if rel == "hash" and case["foreign"] % 3 == 0:
+        # two DIFFERENT strategies that agree on the first value of every key (a compatibility probe that looks at one hash only
+        # cannot tell them apart; from depth 2 on they select other cells)
+        h1, h2 = [("default", "fnv_first"), ("fnv", "dec_fnv"), ("fnv_first", "dec_fnv"), ("dec_fnv", "default")][case["foreign"] % 4]
+        ctx.feat("hash_pair_agreeing_on_first_value_only")
     objs = []
     try:
         if t == "cms":
